@@ -78,7 +78,20 @@ def run(ctx):
         if os.path.exists(rj):
             ctx.go_results.append(json.load(open(rj)))
         ctx.violate("c42/never-terminates", "the traversal stayed blocked although every load had finished and the context was cancelled", fatal.get("case"))
+    wpath = os.path.join(out, "recs_wide.ndjson")
+    fw = None
+    if os.path.exists(wpath) and os.path.getsize(wpath) > 0:
+        # wide traversals (10^3..10^4 trees per record): few records per TLC run, evaluated beside the main file
+        fw = ex.submit(ctx.check_records, "StreamTreesProps", wpath, name="wide", shard=3 if not th else 13, timeout=1800)
     n, bad, lines = ctx.check_records("StreamTreesProps", os.path.join(out, "recs.ndjson"), shard=3000 if not th else 8000)
+    nwide = 0
+    if fw is not None:
+        nwide, badw, linesw = fw.result()
+        bad = bad + [n + i for i in badw]
+        lines = lines + linesw
+        n += nwide
+    elif not fatal and not ctx.violations:
+        raise verif.MachineryError("the driver wrote no wide records")
     if bad:
         sub = [lines[i - 1] for i in bad[:300]]
         parts = {}
@@ -118,7 +131,7 @@ def run(ctx):
     cov = {"states": sum(d["states"] for d in design if d["result"] == "holds"),
            "transitions": sum(d["transitions"] for d in design if d["result"] == "holds"),
            "traces_validated_against_impl": n, "design_model_runs": design, "vectors_generated_by_tlc": nsched,
-           "records_checked_by_tlc": n, "records_rejected": len(bad),
+           "records_checked_by_tlc": n, "wide_records_checked_by_tlc": nwide, "records_rejected": len(bad),
            "evaluations": gres.get("evaluations", 0), "distinct_nontrivial": gres.get("distinct_nontrivial", 0),
            "rule": gres.get("rule", ""), "counters": gres.get("counters", {}),
            "samples": (gres.get("samples") or [])[:2] + [s for s in verif.samples_from(lines, 3) if not isinstance(s, dict) or len(s.get("kids", [])) <= 12][:2]}
@@ -126,4 +139,5 @@ def run(ctx):
         "the repository is a fake restic.Loader serving generated tree blobs (real tree JSON built with TreeJSONBuilder); ids are not content hashes, so the generator only builds DAGs (edges from lower to higher tree numbers)",
         "gated replay controls the order in which LoadBlob calls complete; the choices inside filterTrees' select and the worker that receives a job are made by the Go runtime (where they differ from the model behaviour the controller releases the next possible load of TLC's order)",
         "FindUsedBlobs aborts on an unreadable tree (error expected iff one is reachable); StreamTrees is also run with a callback that tolerates unreadable trees, as the checker does (an unreadable tree then has no children)",
-        "model bounds: all DAGs on <= 4 trees with <= 2 subtree entries per tree (duplicates allowed), <= 2 roots, 2-3 workers; random DAGs up to 200 trees"])
+        "model bounds: all DAGs on <= 4 trees with <= 2 subtree entries per tree (duplicates allowed), <= 2 roots, 2-3 workers; random DAGs up to 200 trees",
+        "scale: wide inputs with width w around powers of two up to 10000 (quick: 2^k+1 for k=10..13 plus one seed-dependent neighbour, one mode each; thorough: 2^k-1, 2^k, 2^k+1, 10000, both modes) in four shapes: one directory with w subdirectories, w entries over w/2 distinct subtrees, w root trees with own + common subtrees, a depth-first path whose pending siblings add up to w; free-running workers; trees are tiny and synthetic"])
